@@ -1,14 +1,15 @@
-/- REGENERATED on every run by harness/props/c10.py from sequence/align/*.pyx. Do not edit. -/
-namespace BiotiteModel.Gen.C10
-def entrySizeNoBuckets : Nat := 2
-def entrySizeBuckets : Nat := 4
-def headerWords : Nat := 2
-def allocHeaderWords : Nat := 2
-def lcgA : Nat := 15074714826142052245
-def lcgC : Nat := 1
-def maxInt64 : Int := 9223372036854775807
-def kMin : Nat := 2
-def windowMin : Nat := 2
+/-!
+# C10 — what the hand-written model assumes about the source text (pinned)
+
+`Gen/C10.lean` is regenerated from `/repo/src/biotite/sequence/align/*.pyx` on every run (logical code lines of the
+functions the model covers: loop domains, guards and their operators, index expressions, formulas, the order of the
+steps; default values; exception classes and the guard of every `raise`).  This file is the hand-owned copy of the
+state the model `Model/C10.lean` was written against; the theorems `C10_gen_*` in `Props/C10.lean` prove
+`Gen = Expected`, so any edit of one of these lines breaks a named obligation for every input at once.
+When the code legitimately changes, re-read the function, update the model, then update the pinned lines here.
+-/
+namespace BiotiteModel.C10.Expected
+
 /-- `kmeralphabet.pyx` `KmerAlphabet.__init__` -/
 def kalInitSpacing : List String := ["base_alph_len = len(self._base_alph)", "self._radix_multiplier = np.array([base_alph_len**n for n in reversed(range(0, self._k))], dtype=np.int64)", "self._spacing = None", "self._spacing = _to_array_form(spacing)", "self._spacing = np.array(spacing, dtype=np.int64)", "self._spacing.sort()", "if (self._spacing < 0).any():", "if len(np.unique(self._spacing)) != len(self._spacing):", "if spacing is not None and len(self._spacing) != self._k:"]
 /-- `kmeralphabet.pyx` `KmerAlphabet.fuse` -/
@@ -357,4 +358,5 @@ def errorPaths : List (String × List (String × String)) := [("kmeralphabet:Kme
   ("permutation:FrequencyPermutation.__init__", [("IndexError", "len(kmer_alphabet) != len(counts)")]),
   ("kmersimilarity:ScoreThresholdRule.__init__", [("ValueError", "not matrix.is_symmetric()")]),
   ("kmersimilarity:ScoreThresholdRule.similar_kmers", [("ValueError", "not self._matrix.get_alphabet1().extends(kmer_alphabet.base_alphabet)")])]
-end BiotiteModel.Gen.C10
+
+end BiotiteModel.C10.Expected
